@@ -39,7 +39,12 @@ class AnsiFormatter(Formatter):
         formatted = self._formatter.colorize(string)
 
         if style is not None:
-            self._formatter._style_stack.pop()
+            pastel_style = self._formatter._style_stack.pop()
+
+            if formatted and not self._formatter.FULL_TAG_REGEX.search(string):
+                # Pastel returns text without any tag as is,
+                # so the given style has to be applied here.
+                formatted = pastel_style.apply(formatted)
 
         return formatted
 
